@@ -131,6 +131,8 @@ def generate(ctx):
                     want_cols = list(nf.columns) + ([nf.index.name or "__index_level_0__"] if ik != "default" else [])
                     assert list(back.columns) == want_cols, f"columns {list(back.columns)} != {want_cols}"
                     assert len(back) == n
+                    if ik == "default":
+                        assert [repr(v) for v in back.index] == [repr(v) for v in range(n)], f"a default index came back as {list(back.index)[:8]}"
                     for c in nf.columns:
                         assert col_pylist(back, c) == col_pylist(nf, c), f"column {c} differs"
                     for c in (N1, N2):
@@ -273,13 +275,24 @@ def generate(ctx):
                     variant = "wellformed"
                     col = pa.chunked_array([pa.array(rows, type=st)], type=st)
                 # the foreign column carries the SAME name as the frame's own nested column
-                pq.write_table(pa.table({"x": pa.array(range(n)), N1: col}), path, row_group_size=max(1, rng.randint(1, max(1, n))))
+                with_pandas_meta = variant == "wellformed" and (i // 8) % 2 == 0 and n > 0
+                if with_pandas_meta:
+                    # written by plain pyarrow FROM A PANDAS FRAME with its own labels (pandas metadata in the file, the index restored
+                    # on reading): the nested rows still belong to the rows they were written with
+                    lab = rng.choice([rng.sample(range(n), n), [10 * (j + 1) for j in range(n)], [f"s{j}" for j in range(n)][::-1]])
+                    pdf = pd.DataFrame({"x": list(range(n)), N1: pd.Series(col, dtype=pd.ArrowDtype(st), index=lab)}, index=lab)
+                    pq.write_table(pa.Table.from_pandas(pdf), path, row_group_size=max(1, rng.randint(1, max(1, n))))
+                else:
+                    pq.write_table(pa.table({"x": pa.array(range(n)), N1: col}), path, row_group_size=max(1, rng.randint(1, max(1, n))))
 
                 def run_f():
                     back = read_parquet(path)
                     if variant == "wellformed":
                         assert isinstance(back.dtypes[N1], NestedDtype)
                         assert repr(back[N1].array.chunked_array.to_pylist()) == repr(col.to_pylist())
+                        assert [int(v) for v in back["x"]] == list(range(n)), "base values moved"
+                        if with_pandas_meta:
+                            assert [repr(v) for v in back.index] == [repr(v) for v in lab], "labels of the file's pandas metadata not restored"
                     elif variant == "nonlist":
                         assert not isinstance(back.dtypes[N1], NestedDtype), "a struct with a non-list field became nested"
                         assert [int(v) for v in back["x"]] == list(range(n))
